@@ -42,7 +42,7 @@ TRUSTED = ['Python call binding (positional / keyword / defaults / *args) is mod
 
 def cases(rng, tier):
     out = V.gate_enum(rng) + V.naming_enum(rng) + V.names_enum(rng) + V.one_param_cascade(rng) + V.surplus_enum(rng) + V.varpos_enum(rng) + V.reentrant_enum(rng)
-    out += V.receiver_enum(rng)
+    out += V.receiver_enum(rng) + V.varpos_surplus_enum(rng)
     out += V.random_cases(rng, 44000 if tier == 'quick' else 240000, allow_varargs=True)
     out += V.scenario_cases(rng, 3000 if tier == 'quick' else 20000, allow_varargs=True)
     out += V.flask_cases(rng, 4000 if tier == 'quick' else 30000)
@@ -61,7 +61,10 @@ def judge(case, impl, model):
     if 'calls' in case['c']:
         return V.judge_scenario(case, impl, model, judge)        # every call of the history is judged like a single call
     corr, why = V.correspondence(case, impl, model)
-    # no recorded region: the former finding `selfKeywordBypassesGate` (a keyword `self` on a plain function handed over positionally)
-    # is repaired - a case that falls into it again is a violation
-    return {'corr': corr, 'why': why, 'pfail': V.pfail_gate(case, impl, model), 'finding': None,
+    pf, finding = V.pfail_gate(case, impl, model), None
+    if isinstance(pf, tuple):
+        # inside a region the Lean side names (complement of the guard of a `_partial` theorem, computed by the driver); a finding only
+        # where the model reproduces the implementation.  (The former finding `selfKeywordBypassesGate` has no region any more.)
+        pf, finding = pf[1], (pf[0].split(':', 1)[1] if corr else None)
+    return {'corr': corr, 'why': why, 'pfail': pf, 'finding': finding,
             'nontrivial': V.nontrivial(case, impl), 'tag': V.tag_of(case, impl)}
